@@ -53,7 +53,8 @@ type knownFinding struct {
 
 func NewReport(id, tier string, seed int64, level, verifDir string) *Report {
 	r := &Report{ID: id, Tier: tier, Seed: seed, Level: level, VerifDir: verifDir,
-		start: time.Now(), distinct: map[string]bool{}, extra: map[string]any{}, counters: map[string]int{}, maxSamples: 6}
+		start: time.Now(), distinct: map[string]bool{}, extra: map[string]any{}, counters: map[string]int{}, maxSamples: 6,
+		assumptions: []string{}}
 	r.loadKnown()
 	return r
 }
